@@ -8,6 +8,7 @@ package tcp
 // made by the harness afterwards is the causal barrier: the accept queue is FIFO).
 
 import (
+	"log"
 	"bytes"
 	"crypto/tls"
 	"fmt"
@@ -84,6 +85,8 @@ type c12Front struct {
 }
 
 func TestVerifC12TCP(t *testing.T) {
+	log.SetOutput(io.Discard) // fabio logs every rule comparison; the verdicts do not depend on it
+
 	loop, ll := verifx.C12Loop, verifx.C12LinkLocal()
 	for _, cc := range []*verifx.C12Conc{loop, ll} {
 		if cc == nil {
@@ -297,7 +300,7 @@ func TestVerifC12TCP(t *testing.T) {
 			case kind != "sni" && answered != (made == 1):
 				verifx.Fail(cc2, c.Features("tcp-"+kind, "answer-vs-upstream-inconsistent", rulesCause), "%s: answered=%v but the upstream accepted %d connection(s)", desc, answered, made)
 			case out == "dial" && !c.May:
-				cause := c.Cause("", func(string, bool) (bool, bool) { return false, false })
+				cause := c.Cause("", func(string, bool, bool) (bool, bool) { return false, false })
 				verifx.Fail(cc2, c.Features("tcp-"+kind, "admitted-must-deny", cause),
 					"%s: the upstream accepted a connection (client answered=%v), but the well-formed part of the rules does not admit the peer [cause: %s]", desc, answered, cause)
 			case out == "close" && c.Must:
